@@ -863,6 +863,42 @@ example : (gateAll init0 [.ev 0 .ctxDone, .begin 0, .ev 0 .rtBegin] 0).phase ≠
     (execA [] [.ev 0 .ctxDone, .begin 0, .ev 0 .rtBegin, .ev 0 .fire, .ev 0 (.rtEnd true), .join 0]).2 =
       [.none, .waiting, .none, .none, .none, .trace 5] := by decide
 
+/-- BODILESS RESPONSES COMPLETE EXACTLY ONCE: in every script over any number of calls, once the
+round trip of a prepared call `k` has handed a response to the caller (phase `body`: also a
+response without body — http.NoBody, 204/304, HEAD, Content-Length 0, END_STREAM — is wrapped by
+the tracing reader), the caller's first touch of the body (`touch`: a Read, which is EOF at once,
+or a Close) leaves EXACTLY ONE completion of call `k` in the whole script, whatever precedes
+(`pre`: e.g. a cancellation whose goroutine fired first) and follows (`post`); its trace is a
+trace of call `k`, it is the first one completed and it stays in the call's wrapper
+(so `wire_delivers_within_grace` hands it to the waiter of `k`). -/
+theorem bodiless_completes_once (bare : List Nat) (pre post : List AOp) (k : Nat) (read : Bool)
+    (hk : bare.contains k = false) (hb : (gateAll init0 pre k).phase = .body) :
+    ((lowerAll init0 (pre ++ .ev k (touch read) :: post)).filterMap (completesCall k)).length = 1 ∧
+    ∃ t, ((execA bare (pre ++ .ev k (touch read) :: post)).1.calls k).avail = some t ∧ t / 8 = k ∧
+      firstTrace k (lowerAll init0 (pre ++ .ev k (touch read) :: post)) = some t := by
+  have hc : completing (gateAll init0 pre k) (touch read) = true := by
+    cases read <;> simp [touch, completing, hb]
+  obtain ⟨t, h1, h2, h3⟩ := async_no_loss bare pre post k (touch read) hk hc
+  refine ⟨?_, t, h1, h2, h3⟩
+  have hle := async_completes_once (pre ++ .ev k (touch read) :: post) k
+  unfold firstTrace at h3
+  cases hl : (lowerAll init0 (pre ++ .ev k (touch read) :: post)).filterMap (completesCall k) with
+  | nil => rw [hl] at h3; simp at h3
+  | cons a l =>
+    rw [hl] at hle
+    simp only [List.length_cons] at hle ⊢
+    omega
+
+/-- non-vacuity: a bodiless response read by the caller while the waiter is pending (cause 1), and
+one closed after a cancellation whose goroutine has not fired yet (cause 2; the late `fire` adds
+nothing) -/
+example : (gateAll init0 [.ev 0 .rtBegin, .begin 0, .ev 0 (.rtEnd true)] 0).phase = .body ∧
+    (execA [] ([.ev 0 .rtBegin, .begin 0, .ev 0 (.rtEnd true)] ++ .ev 0 (touch true) :: [.join 0])).2 =
+      [.none, .waiting, .none, .none, .trace 1] ∧
+    (gateAll init0 [.ev 0 .rtBegin, .ev 0 (.rtEnd true), .ev 0 .ctxDone] 0).phase = .body ∧
+    (execA [] ([.ev 0 .rtBegin, .ev 0 (.rtEnd true), .ev 0 .ctxDone] ++ .ev 0 (touch false) ::
+      [.ev 0 .fire, .begin 0])).2 = [.none, .none, .none, .none, .none, .trace 2] := by decide
+
 end wireasync
 
 end ConfModel.Props.C16
